@@ -195,6 +195,7 @@ def run(ctx, P):
     from . import r2
     r2.purges_keep_other_commands(ctx, P, "C04f")
     r2.sweeps_drop_empty_entries(ctx, P, "C04g")
+    r2.events_are_lossless(ctx, P, "C04h")
     clause_e(ctx, P)
     clause_a(ctx, P)
     clause_b(ctx, P)
